@@ -8,6 +8,7 @@
 use std::cell::RefCell;
 use std::convert::Infallible;
 use std::rc::Rc;
+use std::sync::atomic::{AtomicU8, Ordering};
 use std::sync::{Arc, Mutex};
 
 use rxrust::observer::{BoxObserver, BoxObserverThreads};
@@ -61,6 +62,8 @@ pub struct LCtx {
   pub creates: Rc<RefCell<Vec<Subscriber<BoxObserver<'static, Val, i64>>>>>,
   pub counters: Rc<RefCell<Counters>>,
   pub sched: VerifScheduler,
+  /// case field `mono k` (see `mono_pairs!`): 0 = box after every operator
+  pub mono: Arc<AtomicU8>,
 }
 
 /// Per-case environment of the thread-safe flavour.
@@ -70,6 +73,8 @@ pub struct TCtx {
   pub creates: Arc<Mutex<Vec<SubscriberThreads<BoxObserverThreads<Val, i64>>>>>,
   pub counters: Arc<Mutex<Counters>>,
   pub sched: VerifSchedulerThreads,
+  /// case field `mono k` (see `mono_pairs!`): 0 = box after every operator
+  pub mono: Arc<AtomicU8>,
 }
 
 impl LCtx {
@@ -170,14 +175,109 @@ impl TCtx {
   }
 }
 
+
+// ---------------------------------------------------------------- monomorphic pairs
+// With the case field `mono 1|2` two adjacent single-input operators of the list below are applied
+// WITHOUT a box between them: `src.a(..).b(..).box_it()`, so the receiver of `b` has the concrete
+// static type `AOp<…>` exactly as in user code (method resolution, inherent methods and
+// specialised impls on operator structs are exercised).  The pipeline text and the model are the
+// same as for the boxed build; `mono 2` shifts the pairing by one operator (the root is built
+// alone), so every adjacency of a chain is covered by one of the two.
+macro_rules! op1 {
+  (map, $s:expr, $xs:expr, $ctx:expr) => { $s.map(fn1($xs[1].atom())) };
+  (mapto, $s:expr, $xs:expr, $ctx:expr) => { $s.map_to(Val::parse(&$xs[1])) };
+  (filter, $s:expr, $xs:expr, $ctx:expr) => { $s.filter(pred($xs[1].atom())) };
+  (filtermap, $s:expr, $xs:expr, $ctx:expr) => { $s.filter_map(fnopt($xs[1].atom())) };
+  (tap, $s:expr, $xs:expr, $ctx:expr) => { $s.tap($ctx.tap_counter()) };
+  (onerrmap, $s:expr, $xs:expr, $ctx:expr) => { $s.on_error_map(fne($xs[1].atom())) };
+  (take, $s:expr, $xs:expr, $ctx:expr) => { $s.take($xs[1].nat()) };
+  (takewhile, $s:expr, $xs:expr, $ctx:expr) => { $s.take_while(pred($xs[1].atom())) };
+  (takewhilei, $s:expr, $xs:expr, $ctx:expr) => { $s.take_while_inclusive(pred($xs[1].atom())) };
+  (skip, $s:expr, $xs:expr, $ctx:expr) => { $s.skip($xs[1].nat()) };
+  (skipwhile, $s:expr, $xs:expr, $ctx:expr) => { $s.skip_while(pred($xs[1].atom())) };
+  (takelast, $s:expr, $xs:expr, $ctx:expr) => { $s.take_last($xs[1].nat()) };
+  (skiplast, $s:expr, $xs:expr, $ctx:expr) => { $s.skip_last($xs[1].nat()) };
+  (last, $s:expr, $xs:expr, $ctx:expr) => { $s.last() };
+  (dflt, $s:expr, $xs:expr, $ctx:expr) => { $s.default_if_empty(Val::parse(&$xs[1])) };
+  (scan, $s:expr, $xs:expr, $ctx:expr) => { $s.scan_initial(Val::parse(&$xs[2]), fn2($xs[1].atom())) };
+  (distinct, $s:expr, $xs:expr, $ctx:expr) => { $s.distinct() };
+  (duc, $s:expr, $xs:expr, $ctx:expr) => { $s.distinct_until_changed() };
+  (pairwise, $s:expr, $xs:expr, $ctx:expr) => { $s.pairwise().map(|(a, b)| pair(a, b)) };
+  (bufcount, $s:expr, $xs:expr, $ctx:expr) => { $s.buffer_with_count($xs[1].nat()).map(Val::List) };
+  (contains, $s:expr, $xs:expr, $ctx:expr) => { $s.contains(Val::parse(&$xs[1])).map(Val::Bool) };
+  (startwith, $s:expr, $xs:expr, $ctx:expr) => {
+    $s.start_with($xs[1].list().iter().map(Val::parse).collect::<Vec<Val>>())
+  };
+  (first, $s:expr, $xs:expr, $ctx:expr) => { $s.first() };
+  (elementat, $s:expr, $xs:expr, $ctx:expr) => { $s.element_at($xs[1].nat()) };
+  (ignore, $s:expr, $xs:expr, $ctx:expr) => { $s.ignore_elements() };
+}
+
+macro_rules! mono_row {
+  ($a:ident, $hb:expr, $src:expr, $xa:expr, $xb:expr, $ctx:expr; [$($b:ident)*]) => {
+    $( if $hb == stringify!($b) {
+      return Some(op1!($b, op1!($a, $src, $xa, $ctx), $xb, $ctx).box_it());
+    } )*
+  };
+}
+
+macro_rules! mono_pairs {
+  ($ha:expr, $hb:expr, $src:expr, $xa:expr, $xb:expr, $ctx:expr; [$($a:ident)*] $bs:tt) => {
+    $( if $ha == stringify!($a) {
+      mono_row!($a, $hb, $src, $xa, $xb, $ctx; $bs);
+    } )*
+  };
+}
+
+pub const MONO_OPS: &[&str] = &[
+  "map", "mapto", "filter", "filtermap", "tap", "onerrmap", "take", "takewhile", "takewhilei", "skip",
+  "skipwhile", "takelast", "skiplast", "last", "dflt", "scan", "distinct", "duc", "pairwise", "bufcount",
+  "contains", "startwith", "first", "elementat", "ignore",
+];
+
+macro_rules! impl_mono {
+  ($name:ident, $ctx:ty, $bx:ty) => {
+    /// `src.a(..).b(..).box_it()` for operators `xa` (inner) and `xb` (outer) of `MONO_OPS`.
+    fn $name(xa: &[SExp], xb: &[SExp], src: $bx, ctx: &$ctx) -> Option<$bx> {
+      let (ha, hb) = (xa[0].atom(), xb[0].atom());
+      mono_pairs!(ha, hb, src, xa, xb, ctx;
+        [map mapto filter filtermap tap onerrmap take takewhile takewhilei skip skipwhile takelast
+         skiplast last dflt scan distinct duc pairwise bufcount contains startwith first elementat ignore]
+        [map mapto filter filtermap tap onerrmap take takewhile takewhilei skip skipwhile takelast
+         skiplast last dflt scan distinct duc pairwise bufcount contains startwith first elementat ignore]);
+      None
+    }
+  };
+}
+impl_mono!(mono_local, LCtx, LBox);
+impl_mono!(mono_threads, TCtx, TBox);
+
 macro_rules! impl_build {
-  ($name:ident, $ctx:ty, $bx:ty,
+  ($name:ident, $mono:ident, $ctx:ty, $bx:ty,
    $merge:ident, $zip:ident, $combine:ident, $wlf:ident, $take_until:ident,
    $skip_until:ident, $sample:ident, $delay:ident, $delay_at:ident, $observe_on:ident) => {
     pub fn $name(e: &SExp, ctx: &$ctx) -> $bx {
       let xs = e.list();
       let head = xs[0].atom();
       let last = || $name(&xs[xs.len() - 1], ctx);
+      match ctx.mono.load(Ordering::SeqCst) {
+        0 => {}
+        2 => ctx.mono.store(1, Ordering::SeqCst), // the root is built alone, pairs start below it
+        _ => {
+          if let Some(SExp::List(inner)) = xs.last() {
+            if MONO_OPS.contains(&head)
+              && MONO_OPS.contains(&inner[0].head())
+              && matches!(inner.last(), Some(SExp::List(_)))
+            {
+              let src = $name(&inner[inner.len() - 1], ctx);
+              if let Some(p) = $mono(inner, xs, src, ctx) {
+                return p;
+              }
+              unreachable!("mono pair not generated");
+            }
+          }
+        }
+      }
       match head {
         // ------------------------------------------------------- sources
         "hot" => ctx.subject(xs[1].nat()).box_it(),
@@ -368,11 +468,12 @@ macro_rules! impl_build {
 }
 
 impl_build!(
-  build_local, LCtx, LBox, merge, zip, combine_latest, with_latest_from, take_until, skip_until,
+  build_local, mono_local, LCtx, LBox, merge, zip, combine_latest, with_latest_from, take_until, skip_until,
   sample, delay, delay_at, observe_on
 );
 impl_build!(
   build_threads,
+  mono_threads,
   TCtx,
   TBox,
   merge_threads,
